@@ -139,11 +139,11 @@ def checkText (ext : Ext) (c : Crit) (probe : S) : Except Crash CheckR :=
     | _, _ => .error .attributeError
   else ofOpR (binop ext c.op probe c.value)
 
-/-- the closure returned for a non-text criterion: `x == criteria` (for an error cell Python falls
-    back to the reflected `criteria.__eq__(x)`, which fails on `x._sort_key`) -/
+/-- the closure returned for a non-text criterion: `x == criteria` (an error cell is an exception
+    object: `ExcelError.__eq__` is identity, i.e. the Python `False`) -/
 def checkPlain (crit probe : S) : Except Crash CheckR :=
   match probe with
-  | .err _ => .error .attributeError
+  | .err _ => .ok .pyFalse
   | _ => ofOpR (richCmp .eq probe crit)
 
 /-- `parse_criteria(criteria)`; `none` = operand not modelled -/
@@ -239,6 +239,12 @@ def cmpE (op : Cmp) (a b : S) : Except Crash Bool :=
   | .py k => .error k
   | _ => .error .other
 
+/-- `val == lookup_value` with a cell on the left: an error cell (an exception object) equals nothing -/
+def cellEq (v key : S) : Except Crash Bool :=
+  match v with
+  | .err _ => .ok false
+  | _ => cmpE .eq v key
+
 /-- `lookup_array == sorted(lookup_array)` as "no element is smaller than its predecessor" -/
 def ascendingE : List S → Except Crash Bool
   | a :: b :: r =>
@@ -271,7 +277,7 @@ def matchLoop (mode : Mode) (key : S) : List S → Nat → Except Crash S
   | v :: rest, i =>
     match mode with
     | .exact =>
-      (match cmpE .eq v key with
+      (match cellEq v key with
        | .error e => .error e
        | .ok true => .ok (.num (.int (i + 1)))
        | .ok false => matchLoop mode key rest (i + 1))
@@ -281,7 +287,7 @@ def matchLoop (mode : Mode) (key : S) : List S → Nat → Except Crash S
        | .ok true => .ok (posOrNa i)
        | .ok false => matchLoop mode key rest (i + 1))
     | .desc =>
-      (match cmpE .eq v key with
+      (match cellEq v key with
        | .error e => .error e
        | .ok true => .ok (.num (.int (i + 1)))
        | .ok false =>
@@ -343,13 +349,10 @@ def vlookupScan (key : S) (col : Nat) : List (List S) → Except Crash S
     match row with
     | [] => .error .indexError
     | k :: _ =>
-      match k with
-      | .err _ => vlookupScan key col rest      -- an exception object equals nothing
-      | _ =>
-        match cmpE .eq k key with
-        | .error e => .error e
-        | .ok true => .ok (row.getD (col - 1) .blank)
-        | .ok false => vlookupScan key col rest
+      match cellEq k key with
+      | .error e => .error e
+      | .ok true => .ok (row.getD (col - 1) .blank)
+      | .ok false => vlookupScan key col rest
 
 def VLOOKUP (key : S) (rows : List (List S)) (colIndex : Num) (rangeLookup : Bool) : Res :=
   match key with
